@@ -6,6 +6,7 @@ replace rare => /repo
 
 require (
 	github.com/araddon/dateparse v0.0.0-20210207001429-0eec95c9db7e
+	github.com/urfave/cli/v2 v2.11.2
 	golang.org/x/tools v0.29.0
 	rare v0.0.0-00010101000000-000000000000
 )
@@ -17,7 +18,6 @@ require (
 	github.com/tidwall/gjson v1.14.1 // indirect
 	github.com/tidwall/match v1.1.1 // indirect
 	github.com/tidwall/pretty v1.2.0 // indirect
-	github.com/urfave/cli/v2 v2.11.2 // indirect
 	github.com/xrash/smetrics v0.0.0-20201216005158-039620a65673 // indirect
 	golang.org/x/mod v0.22.0 // indirect
 	golang.org/x/sync v0.10.0 // indirect
